@@ -162,14 +162,14 @@ Plan gen(uint64_t seed, int tier) {
   if (r.chance(0.7)) p.ops.push_back(mkop("CTL", {11002, r.pick({1000, 1000, 1001, 1002})}));
   if (r.chance(0.4)) p.ops.push_back(mkop("CTL", {OPUS_SET_COMPLEXITY_REQUEST, r.pick({0, 2, 5, 8, 10, 10})}));
   if (r.chance(0.3)) { p.ops.push_back(mkop("CTL", {OPUS_SET_INBAND_FEC_REQUEST, 1})); p.ops.push_back(mkop("CTL", {OPUS_SET_PACKET_LOSS_PERC_REQUEST, r.pick({10, 30})})); }
-  p.ops.push_back(mkop("SRC", {r.weighted({1, 0, 4, 2, 5, 4, 1, 2, 2, 0, 1, 1, 4}), r.pick({60, 110, 220, 440, 1000, 3000, 7000}), r.pick({10, 100, 300, 500, 900, 1000, 2000}), r.range(1, 1000), r.range(0, 1000)}));
+  p.ops.push_back(mkop("SRC", {r.weighted({1, 0, 4, 2, 5, 4, 1, 2, 2, 0, 1, 1, 4, 1, 1, 2}), r.pick({60, 110, 220, 440, 1000, 3000, 7000}), r.pick({10, 100, 300, 500, 900, 1000, 2000}), r.range(1, 1000), r.range(0, 1000)}));
   int n = (int)(tier ? r.range(15, 80) : r.range(5, 25));
   int fidx = r.weighted({1, 2, 4, 8, 3, 2, 1, 1, 1});
   double ploss = r.pick({0.0, 0.0, 0.1, 0.3});
   for (int i = 0; i < n; i++) {
     if (r.chance(0.15)) push_ctl();
     if (r.chance(0.05)) p.ops.push_back(mkop("CTL", {11002, r.pick({1000, 1001, 1002, -1000})}));
-    if (r.chance(0.06)) p.ops.push_back(mkop("SRC", {r.weighted({1, 0, 4, 2, 5, 4, 1, 2, 2, 0, 1, 1, 4}), r.pick({60, 110, 220, 440, 1000, 3000, 7000}), r.pick({10, 100, 300, 500, 900, 1000, 2000}), r.range(1, 1000), r.range(0, 1000)}));
+    if (r.chance(0.06)) p.ops.push_back(mkop("SRC", {r.weighted({1, 0, 4, 2, 5, 4, 1, 2, 2, 0, 1, 1, 4, 1, 1, 2}), r.pick({60, 110, 220, 440, 1000, 3000, 7000}), r.pick({10, 100, 300, 500, 900, 1000, 2000}), r.range(1, 1000), r.range(0, 1000)}));
     if (r.chance(0.1)) fidx = r.weighted({1, 2, 4, 8, 3, 2, 1, 1, 1});
     if (r.chance(0.03)) p.ops.push_back(mkop("DCTL", {r.range(0, 1), r.pick({0, 256, -256, 3000})}));
     p.ops.push_back(mkop("ENC", {fidx, r.pick({1500, 1500, 1276, 300, 60, 20, 8}), r.range(0, 2), r.chance(ploss) ? r.range(1, 2) : 0}));
